@@ -97,6 +97,8 @@ def build_text(prog):
             dattr += ' cache_key="${k}"'
         elif prog["key"] == "arg":
             dattr += ' cache_key="${a}"'
+        elif prog["key"] == "mixed":
+            dattr += ' cache_key="${k} ${a}"'  # two expressions separated by a blank: the key is their values joined by that blank
         if "b" in prog["flags"]:
             dattr += ' buffered="True"'
         if "f" in prog["flags"]:
@@ -168,7 +170,7 @@ class Model:
             return "render_body"
         if sec == "d":
             kf = self.prog["key"]
-            return {"default": "render_d", "literal": "K1", "ctx": ctx["k"], "arg": a}[kf]
+            return {"default": "render_d", "literal": "K1", "ctx": ctx["k"], "arg": a, "mixed": "%s %s" % (ctx["k"], a)}[kf]
         if sec == "n":
             return "n"
         if sec == "b":
@@ -562,6 +564,9 @@ def events(cfg):
                 ev.append(("invalidate", ti, "ka"))
             if prog["key"] == "arg":
                 ev.append(("invalidate", ti, "y"))
+            if prog["key"] == "mixed":
+                ev.append(("invalidate", ti, "ka x"))
+                ev.append(("invalidate", ti, "kax"))
         if "b" in c:
             ev.append(("invalidate_def", ti, "b"))
         if prog.get("extra") == "kwonly":
@@ -569,7 +574,7 @@ def events(cfg):
         if "n" in c:
             ev.append(("invalidate_closure", ti, "n"))
         if nt == 1:
-            firstkey = {"page": "render_body", "d": {"default": "render_d", "literal": "K1", "ctx": "ka", "arg": "x"}[prog["key"]], "n": "n", "b": "render_b"}
+            firstkey = {"page": "render_body", "d": {"default": "render_d", "literal": "K1", "ctx": "ka", "arg": "x", "mixed": "ka x"}[prog["key"]], "n": "n", "b": "render_b"}
             for s_ in prog["cached"]:
                 if s_ in firstkey and cfg["backend"] == "rec":
                     ev.append(("set", ti, firstkey[s_]))
@@ -581,7 +586,7 @@ def events(cfg):
     return ev
 
 
-KEY_UNIVERSE = ["render_body", "render_d", "K1", "ka", "kb", "x", "y", "n", "render_b", "render_render_k", 5, "5", 0, ""]
+KEY_UNIVERSE = ["render_body", "render_d", "K1", "ka", "kb", "x", "y", "n", "render_b", "render_render_k", 5, "5", 0, "", "ka x", "ka y", "kb x", "kb y", "kax", "kay"]
 
 
 def real_state(w):
@@ -673,6 +678,9 @@ def configs(tier):
     # cache keys that are not strings
     for be in backends[:2] if tier == "quick" else backends:
         cfgs.append({"prog": {"cached": ["d"], "key": "ctx", "flags": "", "args": "none", "ctxs": ["c4", "c5", "c6"]}, "backend": be, "max_depth": 30 if tier != "quick" else 7, "nofault": True})
+    # a cache_key made of two expressions and a blank between them
+    for be in backends[:2]:
+        cfgs.append({"prog": {"cached": ["d"], "key": "mixed", "flags": "", "args": "none"}, "backend": be, "max_depth": 30 if tier != "quick" else 6, "nofault": True})
     # cache keys that are false in a boolean test (0, '')
     for be in backends[:2] if tier == "quick" else backends[:3]:
         cfgs.append({"prog": {"cached": ["d"], "key": "ctx", "flags": "", "args": "none", "ctxs": ["c7", "c8", "c9"]}, "backend": be, "max_depth": 30 if tier != "quick" else 6, "nofault": True})
